@@ -1,5 +1,7 @@
 /-
-  Proofs/C03Core.lean — helper lemmas for the C03 property files.
+  Proofs/C03Core.lean — helper lemmas for Props/C03.lean (list primitives, insert / overwrite, item and
+  slice assignment).  Everything lives in the sub-namespace `BM.C03.Core` so that the names cannot collide with
+  the helper files of the other C03 parts.
 -/
 import BitstringModel.Model.C03
 import BitstringModel.Proofs.C03
@@ -8,8 +10,8 @@ import Mathlib.Tactic.Ring
 import Mathlib.Tactic.Linarith
 import Mathlib.Data.List.Basic
 import Mathlib.Data.List.Nodup
-namespace BM.C03
-open BM
+namespace BM.C03.Core
+open BM BM.C03
 
 /-! ### slice positions -/
 
@@ -194,4 +196,234 @@ theorem intToBits_neg (k : Nat) (v : Int) (hk : k ≠ 0) (hv : v < 0) (hlo : -((
   rw [if_pos hc]
   omega
 
-end BM.C03
+/-! ### shapes of the operations (inversion lemmas), integer values, `s[a:b:c] = int` -/
+
+theorem normIdx_some_iff' (n : Nat) (i : Int) (j : Nat) :
+    PyL.normIdx n i = some j ↔
+      ((0 ≤ i ∧ i < (n : Int) ∧ (j : Int) = i) ∨ (i < 0 ∧ -(n : Int) ≤ i ∧ (j : Int) = i + (n : Int))) := by
+  unfold PyL.normIdx
+  simp only
+  split <;> split <;> simp only [Option.some.injEq, reduceCtorEq, false_iff] <;> omega
+
+theorem normIdx_none_iff' (n : Nat) (i : Int) :
+    PyL.normIdx n i = none ↔ (i < -(n : Int) ∨ (n : Int) ≤ i) := by
+  unfold PyL.normIdx
+  simp only
+  split <;> split <;> simp only [reduceCtorEq, false_iff, true_iff] <;> omega
+
+theorem intValue_eq_intBits' (k : Nat) (v : Int) : Alg.intValue k v = Spec.intBits k v := by
+  unfold Alg.intValue Spec.intBits
+  by_cases hk : k = 0
+  · simp [hk]
+  · simp only [hk, if_false]
+    by_cases hv : 0 ≤ v
+    · simp only [hv, if_true]
+      by_cases h2 : v < (2 : Int) ^ k
+      · rw [if_neg (by omega), if_pos h2]
+      · rw [if_pos (by omega), if_neg h2]
+    · simp only [hv, if_false]
+      have hpos : (0 : Int) < (2 : Int) ^ (k - 1) := by positivity
+      by_cases h2 : -((2 : Int) ^ (k - 1)) ≤ v
+      · rw [if_neg (by omega), if_pos h2]
+      · rw [if_pos (by omega), if_neg h2]
+
+theorem setSlice_ext_eq {α} (l v : List α) (a b : Option Int) (st : Int) (h0 : st ≠ 0) (h1 : st ≠ 1) :
+    PyL.setSlice l a b (some st) v =
+      if (PyL.slicePositions a b st l.length).length ≠ v.length then .error .value
+      else .ok (PyL.assignAt l (PyL.slicePositions a b st l.length) v) := by
+  simp only [PyL.setSlice, Option.getD_some, h0, h1, if_false]
+
+theorem setSlice_ext_ok {α} {l v r : List α} {a b : Option Int} {st : Int} (h0 : st ≠ 0) (h1 : st ≠ 1)
+    (h : PyL.setSlice l a b (some st) v = .ok r) :
+    (PyL.slicePositions a b st l.length).length = v.length ∧
+      r = PyL.assignAt l (PyL.slicePositions a b st l.length) v := by
+  rw [setSlice_ext_eq l v a b st h0 h1] at h
+  split at h
+  · cases h
+  · rename_i hc
+    injection h with h
+    exact ⟨not_not.mp hc, h.symm⟩
+
+theorem delSlice_ok {α} {l r : List α} {a b c : Option Int} (h : PyL.delSlice l a b c = .ok r) :
+    c.getD 1 ≠ 0 ∧ r = PyL.removeAt l (PyL.slicePositions a b (c.getD 1) l.length) := by
+  unfold PyL.delSlice at h
+  simp only at h
+  split at h
+  · cases h
+  · rename_i hc
+    injection h with h
+    exact ⟨hc, h.symm⟩
+
+theorem insPos_some_iff (n : Nat) (pos : Int) (p : Nat) :
+    Spec.insPos n pos = some p ↔
+      ((0 ≤ pos ∧ pos ≤ (n : Int) ∧ (p : Int) = pos) ∨ (pos < 0 ∧ -(n : Int) ≤ pos ∧ (p : Int) = pos + (n : Int))) := by
+  unfold Spec.insPos
+  simp only
+  split <;> split <;> simp only [Option.some.injEq, reduceCtorEq, false_iff] <;> omega
+
+theorem insPos_none_iff (n : Nat) (pos : Int) :
+    Spec.insPos n pos = none ↔ (pos < -(n : Int) ∨ (n : Int) < pos) := by
+  unfold Spec.insPos
+  simp only
+  split <;> split <;> simp only [reduceCtorEq, false_iff, true_iff] <;> omega
+
+theorem insPos_le {n : Nat} {pos : Int} {p : Nat} (h : Spec.insPos n pos = some p) : p ≤ n := by
+  have := (insPos_some_iff n pos p).mp h
+  omega
+
+theorem insert_ok {l b r : Bits} {pos : Int} (h : Spec.insert l b pos = .ok r) :
+    ∃ p, Spec.insPos l.length pos = some p ∧ p ≤ l.length ∧ r = l.take p ++ b ++ l.drop p := by
+  unfold Spec.insert at h
+  cases hp : Spec.insPos l.length pos with
+  | none => rw [hp] at h; cases h
+  | some p =>
+    rw [hp] at h
+    injection h with h
+    exact ⟨p, rfl, insPos_le hp, h.symm⟩
+
+theorem overwrite_ok {l b r : Bits} {pos : Int} (h : Spec.overwrite l b pos = .ok r) :
+    ∃ p, Spec.insPos l.length pos = some p ∧ p ≤ l.length ∧ r = l.take p ++ b ++ l.drop (p + b.length) := by
+  unfold Spec.overwrite at h
+  cases hp : Spec.insPos l.length pos with
+  | none => rw [hp] at h; cases h
+  | some p =>
+    rw [hp] at h
+    injection h with h
+    exact ⟨p, rfl, insPos_le hp, h.symm⟩
+
+theorem setIndex_ok {α} {l r : List α} {i : Int} {v : α} (h : PyL.setIndex l i v = .ok r) :
+    ∃ j, PyL.normIdx l.length i = some j ∧ r = l.set j v := by
+  unfold PyL.setIndex at h
+  split at h
+  · cases h
+  · rename_i j hj
+    injection h with h
+    exact ⟨j, hj, h.symm⟩
+
+theorem setItemInt_ok {l r : Bits} {i v : Int} (h : Spec.setItemInt l i v = .ok r) :
+    ∃ j, PyL.normIdx l.length i = some j ∧ r = l.set j (decide (v ≠ 0)) := by
+  unfold Spec.setItemInt at h
+  split at h
+  · exact setIndex_ok h
+  · cases h
+
+theorem foldl_set_length {α} (idx : List Nat) (x : α) (l : List α) :
+    (idx.foldl (fun acc i => acc.set i x) l).length = l.length := by
+  induction idx generalizing l with
+  | nil => rfl
+  | cons j js ih => rw [List.foldl_cons, ih, List.length_set]
+
+theorem foldl_set_not_mem {α} (idx : List Nat) (x : α) (l : List α) (i : Nat) (hi : i ∉ idx) :
+    (idx.foldl (fun acc i => acc.set i x) l)[i]? = l[i]? := by
+  induction idx generalizing l with
+  | nil => rfl
+  | cons j js ih =>
+    rw [List.foldl_cons, ih _ (fun h => hi (List.mem_cons_of_mem _ h)), List.getElem?_set_ne]
+    intro e; exact hi (e ▸ List.mem_cons_self)
+
+theorem sliceIndices_one_bounds (a b : Option Int) (n : Nat) :
+    0 ≤ (Py.sliceIndices a b 1 n).1 ∧ (Py.sliceIndices a b 1 n).1 ≤ n ∧
+    0 ≤ (Py.sliceIndices a b 1 n).2.1 ∧ (Py.sliceIndices a b 1 n).2.1 ≤ n := by
+  have h : ¬ (1 : Int) < 0 := by omega
+  unfold Py.sliceIndices
+  cases a <;> cases b <;> simp only [h, if_false] <;> (try split) <;> (try split) <;> omega
+
+theorem getSlice_none_ok {α} (l : List α) (a b : Option Int) :
+    ∃ s, Py.getSlice l a b none = .ok s ∧ s.length = (PyL.slicePositions a b 1 l.length).length := by
+  have h0 : Py.getSlice l a b none = Py.getSlice l a b (some 1) := rfl
+  rw [h0, C01.getSlice_eq l a b 1 (by omega)]
+  refine ⟨_, rfl, ?_⟩
+  rw [slicePositions_length]
+  exact C01.getSlice_length l a b 1 (by omega) _ (C01.getSlice_eq l a b 1 (by omega))
+
+theorem intBits_length {k : Nat} {v : Int} {b : Bits} (h : Spec.intBits k v = .ok b) : b.length = k := by
+  unfold Spec.intBits at h
+  split at h
+  · cases h
+  · split at h
+    · split at h
+      · injection h with h; subst h; exact natToBits_length _ _
+      · cases h
+    · split at h
+      · injection h with h; subst h; simp [intToBits]
+      · cases h
+
+theorem alg_setSliceInt_unit (l : Bits) (a b c : Option Int) (v : Int)
+    (hc : c = none ∨ c = some 1 ∨ c = some (-1)) :
+    Alg.setSliceInt l a b c v =
+      match Py.getSlice l a b none with
+      | .error e => .error e
+      | .ok s =>
+        match Spec.intBits s.length v with
+        | .error e => .error e
+        | .ok bits => PyL.setSlice l a b c bits := by
+  unfold Alg.setSliceInt
+  rw [if_neg (by rcases hc with h | h | h <;> simp [h])]
+  simp only [intValue_eq_intBits']
+  rfl
+
+theorem spec_setSliceInt_unit (l : Bits) (a b c : Option Int) (v : Int)
+    (hc : c.getD 1 = 1 ∨ c.getD 1 = -1) :
+    Spec.setSliceInt l a b c v =
+      match Spec.intBits (PyL.slicePositions a b (c.getD 1) l.length).length v with
+      | .error e => .error e
+      | .ok bits => PyL.setSlice l a b c bits := by
+  unfold Spec.setSliceInt
+  simp only
+  rw [if_neg (by omega), if_pos hc]
+  rfl
+
+theorem spec_setSliceInt_ext (l : Bits) (a b : Option Int) (st : Int) (v : Int)
+    (h0 : st ≠ 0) (h1 : st ≠ 1) (h2 : st ≠ -1) :
+    Spec.setSliceInt l a b (some st) v =
+      if v = 0 ∨ v = 1 then
+        .ok ((PyL.slicePositions a b st l.length).foldl (fun acc i => acc.set i (decide (v = 1))) l)
+      else .error .value := by
+  unfold Spec.setSliceInt
+  simp only [Option.getD_some]
+  rw [if_neg h0, if_neg (by omega)]
+
+theorem rangeList_filterMap_normIdx (a b : Option Int) (st : Int) (hst : st ≠ 0) (n : Nat) :
+    (Py.rangeList (Py.sliceIndices a b st n).1 (Py.sliceIndices a b st n).2.1 st).filterMap (PyL.normIdx n) =
+      PyL.slicePositions a b st n := by
+  unfold PyL.slicePositions
+  simp only
+  rw [← List.filterMap_eq_map]
+  apply List.filterMap_congr
+  intro x hx
+  unfold Py.rangeList at hx
+  rw [List.mem_map] at hx
+  obtain ⟨k, hk, rfl⟩ := hx
+  rw [List.mem_range] at hk
+  have := C01.sliceIndices_bounds a b st hst n k hk
+  simp only [Function.comp]
+  rw [normIdx_some_iff']
+  left
+  omega
+
+theorem setSlice_step1_frame {α} (l v r : List α) (a b : Option Int) (h : PyL.setSlice l a b none v = .ok r)
+    (hv : v.length = (PyL.slicePositions a b 1 l.length).length)
+    (i : Nat) (hi : i ∉ PyL.slicePositions a b 1 l.length) : r[i]? = l[i]? := by
+  rw [slicePositions_length, C01.rangeLen_one] at hv
+  rw [slicePositions_eq, C01.rangeLen_one] at hi
+  unfold PyL.setSlice at h
+  simp only [Option.getD_none, if_true, show ¬ ((1 : Int) = 0) by omega, if_false] at h
+  injection h with h
+  subst h
+  have hb := sliceIndices_one_bounds a b l.length
+  generalize (Py.sliceIndices a b 1 l.length).1 = s at *
+  generalize (Py.sliceIndices a b 1 l.length).2.1 = e at *
+  have hi' : i < s.toNat ∨ s.toNat + (e - s).toNat ≤ i := by
+    by_contra hcon
+    apply hi
+    rw [List.mem_map]
+    refine ⟨i - s.toNat, List.mem_range.mpr (by omega), by omega⟩
+  unfold splice
+  rcases hi' with hi' | hi'
+  · rw [List.append_assoc, List.getElem?_append_left (by simp; omega), List.getElem?_take, if_pos hi']
+  · rw [List.getElem?_append_right (by simp; omega), List.getElem?_drop]
+    congr 1
+    simp
+    omega
+
+end BM.C03.Core
